@@ -38,8 +38,8 @@ class StepTrace:
         self._orig = flt.should_record
         orig, me = self._orig, self
 
-        def should_record(self_, position, velocity, mach, time):
-            data = orig(self_, position, velocity, mach, time)
+        def should_record(self_, position, velocity, mach, time, *more, **kw):     # tolerant of added optional arguments
+            data = orig(self_, position, velocity, mach, time, *more, **kw)
             if build.IN_DECOY:
                 return data
             me.calls += 1
@@ -68,9 +68,9 @@ class StepCounter:
         self._orig = Atmo.get_density_factor_and_mach_for_altitude
         orig, me = self._orig, self
 
-        def counted(self_, altitude):
+        def counted(self_, altitude, *more, **kw):
             if build.IN_DECOY:
-                return orig(self_, altitude)
+                return orig(self_, altitude, *more, **kw)
             me.steps += 1
             if altitude < me.alt_min:
                 me.alt_min = altitude
@@ -78,7 +78,7 @@ class StepCounter:
                 me.alt_max = altitude
             if me.budget is not None and me.steps > me.budget:
                 raise StepBudgetExceeded(me.steps)
-            return orig(self_, altitude)
+            return orig(self_, altitude, *more, **kw)
 
         Atmo.get_density_factor_and_mach_for_altitude = counted
         return self
